@@ -16,7 +16,13 @@ package main
 //   //@   loop 0 invariant expr
 //   //@   loop 0 decreases expr
 //   //@   ghost after "stmt" : lhs = rhs
+//   //@   ghost after "stmt" : use lemmaFn(args)   (ghost call of a verified lemma function: its requires become obligations
+//                                                   here, its ensures are assumed; nothing is modified)
+//   //@   lemmafunc                           (this function is a lemma: it must modify nothing, contain no calls, and every loop
+//                                              needs a `decreases` clause, which is then checked: total correctness)
 //   //@   let name = expr
+//   //@   dead 3 : reason                     (the path ending at canary[3] is claimed infeasible: the canary becomes a
+//                                              proof obligation `path condition is unsatisfiable` instead of a vacuity check)
 //
 // A line that does not start with a keyword continues the previous clause.
 
@@ -54,6 +60,7 @@ type GhostStmt struct {
 	At    string // "entry" or ""
 	LHS   ast.Expr
 	RHS   ast.Expr
+	Use   *ast.CallExpr // ghost use of a lemma function (instead of an assignment)
 	Text  string
 }
 
@@ -72,6 +79,8 @@ type FuncContract struct {
 	LoopDec   map[int]*Clause
 	Ghosts    []*GhostStmt
 	Lets      []*LetClause
+	Lemma     bool           // lemma function (verified for total correctness, usable by `ghost ... : use f(args)`)
+	Dead      map[int]string // canary ordinal -> reason: paths claimed (and then proved) infeasible
 	Trusted   bool // contract is assumed, body not verified (listed in evidence)
 	Pure      bool
 	GhostArgs []string
@@ -127,7 +136,7 @@ func NewContractSet() *ContractSet {
 }
 
 var topKeywords = map[string]bool{"defpred": true, "smt": true, "ghostfield": true, "const": true, "pred": true, "specfunc": true, "axiom": true, "lemma": true, "func": true, "closure": true}
-var clauseKeywords = map[string]bool{"requires": true, "ensures": true, "modifies": true, "overflow": true, "loop": true, "ghost": true, "let": true, "trusted": true, "pure": true, "ghostargs": true}
+var clauseKeywords = map[string]bool{"requires": true, "ensures": true, "modifies": true, "overflow": true, "loop": true, "ghost": true, "let": true, "trusted": true, "pure": true, "ghostargs": true, "dead": true, "lemmafunc": true}
 
 type rawDirective struct {
 	kw   string
@@ -350,8 +359,23 @@ func (fc *FuncContract) addClause(d *rawDirective, path string) error {
 		fc.Trusted = true
 	case "pure":
 		fc.Pure = true
+	case "lemmafunc":
+		fc.Lemma = true
 	case "ghostargs":
 		fc.GhostArgs = strings.Fields(strings.ReplaceAll(text, ",", " "))
+	case "dead":
+		var n int
+		if _, err := fmt.Sscanf(text, "%d", &n); err != nil {
+			return fmt.Errorf("dead N : reason")
+		}
+		reason := ""
+		if k := strings.Index(text, ":"); k >= 0 {
+			reason = strings.TrimSpace(text[k+1:])
+		}
+		if fc.Dead == nil {
+			fc.Dead = map[int]string{}
+		}
+		fc.Dead[n] = reason
 	case "let":
 		k := strings.Index(text, "=")
 		if k < 0 {
@@ -431,6 +455,19 @@ func (fc *FuncContract) addClause(d *rawDirective, path string) error {
 			text = strings.TrimPrefix(strings.TrimSpace(text[5:]), ":")
 		} else {
 			return fmt.Errorf("ghost after|entry")
+		}
+		if t := strings.TrimSpace(text); strings.HasPrefix(t, "use ") {
+			e, err := parseExpr(t[4:])
+			if err != nil {
+				return err
+			}
+			call, ok := e.(*ast.CallExpr)
+			if !ok {
+				return fmt.Errorf("ghost ... : use lemma(args)")
+			}
+			g.Use = call
+			fc.Ghosts = append(fc.Ghosts, g)
+			return nil
 		}
 		depth, k := 0, -1
 		for i, c := range text {
